@@ -117,7 +117,7 @@ def generate_source_code(docstring, parsed):
                 visit(rules, _set_skip_ignored)
 
     _assign_ids(rules)
-    _update_local_references(rules)
+    _update_local_references(rules, parsed.extends)
     _update_rule_references(rules, parsed.extends)
 
     if start_rule is not None:
@@ -278,18 +278,31 @@ def _assign_ids(rules):
     visit(rules, assign_id)
 
 
-def _update_local_references(rules):
+def _update_local_references(rules, extends):
     counter = ex.SymbolCounter()
+    rule_names = _rule_names(rules, extends)
 
     def previsit(node):
         counter.previsit(node)
         if node.is_reference and counter.is_bound(node.name):
-            node.is_local = True
+            # (A class member that has the name of a rule does not hide the
+            # rule from the members that follow.)
+            name = node.name
+            if not (name in rule_names and counter.is_class_member_only(name)):
+                node.is_local = True
+
+        # Remember which bound names the inline Python of this node uses, so
+        # that they can be handed over when the node is compiled into a
+        # function of its own (as an argument, or when the code gets too deep).
+        if hasattr(node, 'python_names'):
+            node.local_names = {
+                x for x in node.python_names() if counter.is_bound(x)
+            }
 
     visit(rules, previsit, counter.postvisit)
 
 
-def _update_rule_references(rules, extends):
+def _rule_names(rules, extends):
     rule_names = set()
     for rule in rules:
         if isinstance(rule, (ex.Class, ex.Rule)):
@@ -301,6 +314,12 @@ def _update_rule_references(rules, extends):
             if hasattr(stmt, 'name'):
                 rule_names.add(stmt.name)
         extends = extends.extends
+
+    return rule_names
+
+
+def _update_rule_references(rules, extends):
+    rule_names = _rule_names(rules, extends)
 
     def check_refs(node):
         if isinstance(node, Ref) and node.name in rule_names and not node.is_local:
